@@ -451,6 +451,21 @@ def inline_aliases(fn):
 
 
 # ---------------------------------------------------------------- loop-append -> comprehension
+def _append_body(body, name):
+    """body of `for`: `name.append(e)` possibly below else-less `if c:` filters -> (e, [c...]) or None"""
+    ifs = []
+    while len(body) == 1 and isinstance(body[0], ast.If) and not body[0].orelse:
+        ifs.append(body[0].test)
+        body = body[0].body
+    if len(body) == 1 and isinstance(body[0], ast.Expr) and isinstance(body[0].value, ast.Call) \
+            and isinstance(body[0].value.func, ast.Attribute) and body[0].value.func.attr == 'append' \
+            and A.is_name(body[0].value.func.value, name) and len(body[0].value.args) == 1 and not body[0].value.keywords \
+            and not any(A.is_name(x, name) for x in ast.walk(body[0].value.args[0])) \
+            and not any(A.is_name(x, name) for c in ifs for x in ast.walk(c)):
+        return body[0].value.args[0], ifs
+    return None
+
+
 def loops_to_comprehensions(block):
     out = []
     i = 0
@@ -461,14 +476,11 @@ def loops_to_comprehensions(block):
         if isinstance(st, ast.Assign) and len(st.targets) == 1 and isinstance(st.targets[0], ast.Name) and (
                 (isinstance(st.value, ast.List) and not st.value.elts) or
                 (isinstance(st.value, ast.Call) and A.dotted(st.value.func) == 'list' and not st.value.args)) \
-                and isinstance(nxt, ast.For) and not nxt.orelse and len(nxt.body) == 1 \
-                and isinstance(nxt.body[0], ast.Expr) and isinstance(nxt.body[0].value, ast.Call) \
-                and isinstance(nxt.body[0].value.func, ast.Attribute) and nxt.body[0].value.func.attr == 'append' \
-                and A.is_name(nxt.body[0].value.func.value, st.targets[0].id) and len(nxt.body[0].value.args) == 1 \
-                and not any(A.is_name(x, st.targets[0].id) for x in ast.walk(nxt.body[0].value.args[0])) \
+                and isinstance(nxt, ast.For) and not nxt.orelse and _append_body(nxt.body, st.targets[0].id) is not None \
                 and not any(A.is_name(x, st.targets[0].id) for x in ast.walk(nxt.iter)):
-            comp = ast.ListComp(elt=nxt.body[0].value.args[0],
-                                generators=[ast.comprehension(target=nxt.target, iter=nxt.iter, ifs=[], is_async=0)])
+            elt_, ifs_ = _append_body(nxt.body, st.targets[0].id)
+            comp = ast.ListComp(elt=elt_,
+                                generators=[ast.comprehension(target=nxt.target, iter=nxt.iter, ifs=ifs_, is_async=0)])
             new = ast.Assign(targets=st.targets, value=comp)
             ast.copy_location(new, nxt)
             ast.copy_location(comp, nxt)
@@ -549,6 +561,25 @@ def _use_path_ok(stmt, name):
     return find(stmt, False) is True
 
 
+def adjacent_pairs_only(fn, name):
+    """every store of `name` in fn is a plain `name = expr` statement whose next statement in the same block is a
+    `return` holding the only load until the next store (so each def/use pair is independent of the others)"""
+    pairs = 0
+    for blk in _block_lists(fn):
+        for i, st in enumerate(blk):
+            if isinstance(st, ast.Assign) and len(st.targets) == 1 and A.is_name(st.targets[0], name):
+                if i + 1 >= len(blk) or not isinstance(blk[i + 1], ast.Return):
+                    return False
+                if sum(1 for x in ast.walk(blk[i + 1]) if isinstance(x, ast.Name) and x.id == name) != 1:
+                    return False
+                if any(isinstance(x, ast.Name) and x.id == name for x in ast.walk(st.value)):
+                    return False
+                pairs += 1
+    total_stores = sum(1 for x in ast.walk(fn) if isinstance(x, ast.Name) and x.id == name and isinstance(x.ctx, ast.Store))
+    total_loads = sum(1 for x in ast.walk(fn) if isinstance(x, ast.Name) and x.id == name and isinstance(x.ctx, ast.Load))
+    return pairs == total_stores == total_loads
+
+
 def inline_single_use_locals(fn):
     """`x = <expr>` followed, in the same block, by the only use of x -> the use is replaced by <expr>.
     Undoes "introduce explaining variable" so that one shape covers both spellings."""
@@ -570,6 +601,21 @@ def inline_single_use_locals(fn):
                 st = blk[i]
                 if isinstance(st, ast.Assign) and len(st.targets) == 1 and isinstance(st.targets[0], ast.Name):
                     name = st.targets[0].id
+                    nxt_loads = sum(1 for x in ast.walk(blk[i + 1]) if isinstance(x, ast.Name) and x.id == name
+                                    and isinstance(x.ctx, ast.Load))
+                    nxt_stores = sum(1 for x in ast.walk(blk[i + 1]) if isinstance(x, ast.Name) and x.id == name
+                                     and isinstance(x.ctx, ast.Store))
+                    if stores.get(name, 0) > 1 and stores.get(name) == loads.get(name) and name not in params \
+                            and isinstance(blk[i + 1], ast.Return) and nxt_loads == 1 and nxt_stores == 0 \
+                            and adjacent_pairs_only(fn, name) \
+                            and not any(isinstance(x, (ast.Yield, ast.YieldFrom, ast.Await, ast.NamedExpr)) for x in ast.walk(st.value)):
+                        # a temporary that is defined several times, each time returned by the very next statement
+                        blk[i + 1] = _AliasSubst({name: st.value}).visit(blk[i + 1])
+                        del blk[i]
+                        done += 1
+                        stores[name] -= 1
+                        loads[name] -= 1
+                        continue
                     if stores.get(name) == 1 and loads.get(name) == 1 and name not in params \
                             and not any(isinstance(x, (ast.Yield, ast.YieldFrom, ast.Await, ast.NamedExpr)) for x in ast.walk(st.value)):
                         # the (only) use in a later statement of the same block; the statements in between must not
@@ -764,10 +810,50 @@ def suppress_to_try(tree):
     return done
 
 
+def flatten_else_after_exit(tree):
+    """canonical form: `if c: A else: B` with A always leaving (return / raise / continue / break on every path) becomes
+    `if c: A` followed by B. Both spellings then look the same to every rule."""
+    done = 0
+
+    def exits(stmts):
+        if not stmts:
+            return False
+        last = stmts[-1]
+        if isinstance(last, (ast.Return, ast.Raise, ast.Continue, ast.Break)):
+            return True
+        if isinstance(last, ast.If) and last.orelse:
+            return exits(last.body) and exits(last.orelse)
+        return False
+
+    def fix(blk):
+        nonlocal done
+        out = []
+        for st in blk:
+            for field in ('body', 'orelse', 'finalbody'):
+                b_ = getattr(st, field, None)
+                if isinstance(b_, list) and b_ and isinstance(b_[0], ast.stmt):
+                    setattr(st, field, fix(b_))
+            if isinstance(st, ast.Try):
+                for h in st.handlers:
+                    h.body = fix(h.body)
+            if isinstance(st, ast.If) and st.orelse and exits(st.body):
+                rest = st.orelse
+                st.orelse = []
+                out.append(st)
+                out.extend(rest)
+                done += 1
+            else:
+                out.append(st)
+        return out
+    tree.body = fix(tree.body)
+    return done
+
+
 def normalise(tree):
     """in-place normalisation of a module tree; returns statistics"""
     stats = {'helpers_inlined': 0, 'aliases_inlined': 0, 'loops_to_comprehensions': 0}
     stats['suppress_to_try'] = suppress_to_try(tree)
+    stats['else_after_exit_flattened'] = flatten_else_after_exit(tree)
     stats['helpers_inlined'] = Inliner(tree).run()
     stats['nested_closures_inlined'] = 0
     for fn in [n for n in ast.walk(tree) if isinstance(n, A.FUNC_TYPES)]:
